@@ -123,7 +123,13 @@ Commit(nv, hp, eb, out, act) ==
   /\ vec' = nv /\ blk' = hp.blk /\ cache' = hp.cache /\ ebuf' = eb /\ hev' = hp.hev
   /\ outcome' = out /\ nops' = nops + 1 /\ lastAct' = act
 \* a call that throws a library exception before touching anything
-Reject(act) == Commit(vec, Heap, ebuf, "rt", act)
+\* (under Policy "any": possibly after a temporary was made and given back - e.g. the implementation evaluates a
+\*  non-elementwise expression into a temporary when target and operand are both empty, null = null looking like aliasing -
+\*  no vector, user buffer or owned block is touched, only the free / cached status of one spare block may differ)
+Reject(act) == \/ Commit(vec, Heap, ebuf, "rt", act)
+               \/ /\ Policy = "any"
+                  /\ \E d \in 0..6 : \E al \in AllocSet(Heap, d, FALSE) : \E r \in DeallocSet(al.hp, al.b, d) :
+                        Commit(vec, r, ebuf, "rt", act)
 \* a call in which an allocation fails: whatever was released before stays released (hp0),
 \* every vector other than the target keeps its record and value, the target t is left
 \* either unchanged (if nothing was released) or empty
@@ -493,7 +499,8 @@ WriteFrame ==
 ExternalStable == [][ lastAct'.name # "none" => \A e \in Exts : ebuf[e].dim # 0 => ebuf'[e].dim = ebuf[e].dim ]_vars
 \* C09/C14/C16: a call that throws a library exception changes nothing; an allocation failure changes no vector but the target
 FailureFrame ==
-  [][ /\ (outcome' = "rt" => vec' = vec /\ blk' = blk /\ ebuf' = ebuf /\ cache' = cache)
+  [][ /\ (outcome' = "rt" => /\ vec' = vec /\ ebuf' = ebuf
+                              /\ \A b \in Blocks : blk[b].st = "owned" => blk'[b] = blk[b])
       /\ (outcome' = "bad_alloc" => /\ \A v \in Vecs : v # TargetOf => vec'[v] = vec[v]
                                     /\ ebuf' = ebuf
                                     /\ \A v \in Vecs : v # TargetOf /\ HasStore(vec[v]) => ValAt(vec[v].loc, blk', ebuf') = ValOf(v)) ]_vars
